@@ -20,10 +20,16 @@ Gauss–Bonnet, the monitor), `Proofs/DihedralWalk.lean`, `Proofs/Delaney2dOppos
 `Proofs/Delaney2dInvariance.lean`, `Proofs/Delaney2dCensusInv.lean`,
 `Proofs/Delaney2dSymbolInv.lean`, `Proofs/Delaney2dSpecLink.lean` (invariance of the symbol).
 
-Not a theorem (see `open_obligations` in conf/C08.json): Gauss–Bonnet for the model without the
-decidable monitor `genusMonitor` (evenness of `2 − χ` for orientable symbols and "closed without
-cross-cap ⇔ oriented": surface topology) — its conclusion is a Spec clause evaluated on the
-implementation's answers, and the monitor is evaluated on the model, for every explored symbol.
+`Proofs/PermSign.lean` (sign of a permutation from its number of cycles),
+`Proofs/Delaney2dClosedOrientable.lean`, `Proofs/Delaney2dPositive.lean`, `Proofs/Delaney2dMap.lean`,
+`Proofs/Delaney2dMapVertices.lean` (the capped surface of a weakly oriented symbol as an oriented
+map: `χ_top + #boundaries` is even, so the parity monitor is a theorem and Gauss–Bonnet holds
+without a monitor).
+
+Not a theorem (see `open_obligations` in conf/C08.json): "closed without cross-cap ⇔ oriented"
+(the second half of `genusMonitor`; it needs χ ≤ 1 for closed non-orientable connected surfaces) —
+only `isSpherical_iff_spec_conditional` depends on it; the monitor is evaluated on the model for
+every explored symbol.
 -/
 import DSymVerif.Proofs.Delaney2dGeom
 import DSymVerif.Proofs.Delaney2dChi
@@ -36,6 +42,7 @@ import DSymVerif.Proofs.Delaney2dGauss
 import DSymVerif.Proofs.Delaney2dCorners
 import DSymVerif.Proofs.Delaney2dSpecLink
 import DSymVerif.Proofs.Delaney2dClosedOrientable
+import DSymVerif.Proofs.Delaney2dMapVertices
 
 namespace DSymVerif.C08
 open DSymVerif.DS DSymVerif.D2 DSymVerif.SpecC08
@@ -719,20 +726,43 @@ theorem bndsEq_is_spec (X Y : List (List Nat)) (u w : List Nat) :
     (BndsEq X Y → multisetEq cycEquiv X Y = true) :=
   ⟨cycEquiv_iff u w, multisetEq_of_bndsEq⟩
 
-/-! ### open (not theorems): the statements, for the record -/
+/-! ### 11. Gauss–Bonnet without a monitor -/
 
-/-- ◐ Gauss–Bonnet for the model without the monitor: on a valid connected complete 2D symbol the
-    curvature is twice the Euler characteristic of the orbifold named by the model's orbifold
-    symbol.  What is missing relative to `gauss_bonnet_conditional` is `genusMonitor s = true` for
-    every good connected symbol: the evenness of `2 − χ_top − #boundaries` for weakly oriented
-    symbols and "no boundary and no cross-cap ⇔ oriented" — facts of surface topology (the Euler
-    characteristic of a closed orientable surface is even), not of the code.  The monitor is
-    evaluated on every explored symbol and the conclusion is also the Spec clause
-    `curvature-eq-twice-chi-of-symbol` on the implementation's answers. -/
-def gauss_bonnet_statement : Prop :=
-  ∀ (s : Sym) (k : Frac) (o : OrbSym), s.view.isConnected = true →
-    curvature s = .ok k → orbifoldSymbol s = .ok o →
-    k.toRat = 2 * chiQ ⟨o.cones, o.bnds, if o.orientable then o.count else 0,
-                          if o.orientable then 0 else o.count⟩
+/-- **the capped surface of a weakly oriented symbol has an even Euler characteristic.**  On a
+    valid weakly oriented 2D symbol, `χ_top + #boundary components` is even (χ_top the model's
+    `euler_characteristic`, the boundary components those returned by `trace_boundary`).  Proof:
+    the triangle darts (chamber, edge) together with one cap dart per mirror end — the boundary
+    dart pointing in the direction given by `partial_orientation` — carry an oriented map: φ walks
+    around the triangles (3-cycles) and along the boundary walks of `trace_boundary` (which are
+    exactly the positive darts), α flips an edge (fixed-point-free involution), and φ·α rotates
+    around the vertices, its cycles being the 2-orbits; sign(φ·α) = sign φ · sign α with
+    sign π = (−1)^(n − #cycles) gives F + b + E + V even. -/
+theorem chi_plus_boundaries_even (y : DSymData) (h : ValidSym y) (hdim : y.dim = 2)
+    (hw : y.view.isWeaklyOriented = true) (rep : Rep) (bnds : List (List Nat))
+    (hb : traceBoundary ⟨y, rep⟩ = .ok bnds) :
+    Even (eulerCharacteristic ⟨y, rep⟩ + (bnds.length : Int)) :=
+  D2.chi_plus_boundaries_even h hdim hw rep hb
+
+example : ValidSym exData ∧ exData.dim = 2 ∧ exData.view.isWeaklyOriented = true :=
+  ⟨exData_valid, by decide +kernel, by decide +kernel⟩
+
+/-- **the parity monitor is a theorem**: it holds on every good 2D symbol on which
+    `orbifold_symbol` answers (the `x / 2` handles of the code lose nothing). -/
+theorem parity_monitor_holds (s : Sym) (g : Good2d s) (o : OrbSym) (hos : orbifoldSymbol s = .ok o) :
+    parityMonitor s = true :=
+  parityMonitor_holds g hos
+
+/-- **Gauss–Bonnet for the model (first sentence of the property), without any monitor**: on
+    every valid complete 2D symbol on which `orbifold_symbol` answers, the curvature is twice the
+    Euler characteristic (the Spec's `orbifoldChi`, here `chiQ`) of the orbifold named by the
+    model's orbifold symbol. -/
+theorem gauss_bonnet (s : Sym) (g : Good2d s) (o : OrbSym) (hos : orbifoldSymbol s = .ok o) :
+    ∃ K, curvature s = .ok K ∧
+      K.toRat = 2 * chiQ ⟨o.cones, o.bnds, if o.orientable then o.count else 0,
+                            if o.orientable then 0 else o.count⟩ := by
+  obtain ⟨K, o', hK, ho', hv⟩ := gauss_bonnet_conditional s g (parityMonitor_holds g hos)
+  rw [hos] at ho'
+  cases ho'
+  exact ⟨K, hK, hv⟩
 
 end DSymVerif.C08
